@@ -97,9 +97,9 @@ Theorem c07_hook_only_when_defined : forall W (S : sem W) w l t1 o p n ys t2,
 Proof.
   intros W S w l t1 o p n ys t2 E.
   destruct (trace_event_ok S default_config _ _ _ _ _ handlers_guarded w l _ _ _ E) as (_ & pn & vw & D).
-  exists pn, vw. split; [exact D|]. revert D. unfold decide, access_attr.
-  destruct (nkind_of pn); try discriminate; destruct (hook_for vw p); try reflexivity; cbn;
-    destruct (check_attr _ _ _ _ _) as [[]| | |]; discriminate.
+  exists pn, vw. split; [exact D|]. revert D. unfold decide, Attr.access_attr.
+  destruct (nkind_of pn); try discriminate; destruct (hook_for vw p); try reflexivity;
+    match goal with |- context [Attr.check_attr ?a ?b ?c ?d ?e] => destruct (Attr.check_attr a b c d e) as [[]| | |] end; cbn; discriminate.
 Qed.
 Print Assumptions c07_hook_only_when_defined.
 
@@ -144,9 +144,8 @@ Theorem c07_always_answered_or_dropped : forall W (S : sem W) msg answers (s s' 
   (closed s = false -> (forall seq args, kind_of Gen_handlers.msg_ladder msg <> Some (DRequest, seq, args)) ->
      o = OIgnored \/ (exists x, o = OEnd x /\ closed s' = true) \/ o = OUnm).
 Proof.
-  intros W S msg answers s s' o E. repeat split.
-  - intros Hc. exact (proj1 (dead_outcome S _ _ _ _ _ _ _ _ _ _ _ _ Hc E)).
-  - intros Hc. exact (proj2 (dead_outcome S _ _ _ _ _ _ _ _ _ _ _ _ Hc E)).
+  intros W S msg answers s s' o E. split; [|split].
+  - intros Hc. exact (dead_outcome S _ _ _ _ _ _ _ _ _ _ _ Hc E).
   - intros Hc seq args Hk. exact (request_outcome S _ _ _ _ _ _ _ _ _ _ _ _ _ Hc Hk E).
   - intros Hc Hk. exact (other_outcome S _ _ _ _ _ _ _ _ _ _ _ Hc Hk E).
 Qed.
@@ -170,7 +169,8 @@ Theorem c07_tie :
   Gen_attrpolicy.decode_guarded = c_guard default_config /\ table_pk default_config Gen_handlers.handlers.
 Proof.
   destruct ladders_tie as (A & B & D). destruct table_lookup_tie as [G H]. destruct default_config_tie as (_ & _ & _ & K & _).
-  repeat split; try assumption; try reflexivity. exact handlers_guarded.
+  split; [reflexivity|]. split; [reflexivity|]. split; [exact A|]. split; [exact B|]. split; [exact D|]. split; [exact G|].
+  split; [exact H|]. split; [exact K|]. exact handlers_guarded.
 Qed.
 Print Assumptions c07_tie.
 
@@ -190,9 +190,9 @@ Definition ex_sem : sem unit := world_sem ex_world [txt "ValueError"; txt "Keybo
 Definition V (v : pyval) := PTuple [PInt 1; v].
 Definition Lr (k : pyval) := PTuple [PInt 3; k].
 Definition Tt (l : list pyval) := PTuple [PInt 2; PTuple l].
-Definition req (seq h : Z) (items : list pyval) : input := IMsg (PTuple [PInt 1; PInt seq; PTuple [PInt h; Tt items]]) [].
+Definition req (seq h : Z) (items : list pyval) : @input unit := IMsg (PTuple [PInt 1; PInt seq; PTuple [PInt h; Tt items]]) [].
 Definition S' (s : string) := PStr (txt s).
-Definition ex_session : list input :=
+Definition ex_session : list (@input unit) :=
   [req 1 3 [];                                                        (* GETROOT *)
    req 2 4 [Lr (ex_key 0); V (S' "secret")];                          (* GETATTR root.secret: denied *)
    req 3 11 [Lr (ex_key 0); Lr (ex_key 0); V (S' "__class__")];       (* CMP with a denied operator name *)
@@ -204,8 +204,8 @@ Definition ex_session : list input :=
    IMsg (PTuple [PInt 3; PInt 9; PTuple [PTuple [S' "os"; S' "system"]; PTuple []; PTuple []; S' ""]]) [];   (* crafted exception record *)
    req 10 21 []].                                                     (* no such handler *)
 Definition ex_outs : list out :=
-  (fix go (s : hst unit) (l : list input) : list out :=
-     match l with [] => [] | i :: r => let '(s', o) := step ex_sem default_config handlers dispatch msg_ladder unbox_ladder box_ladder s i in o :: go s' r end)
+  (fix go (s : hst unit) (l : list (@input unit)) : list out :=
+     match l with [] => [] | i :: r => let '(s', o) := step ex_sem default_config Hostile.handlers Hostile.dispatch Hostile.msg_ladder Hostile.unbox_ladder Hostile.box_ladder s i in o :: go s' r end)
     (init tt) ex_session.
 
 Example c07_session_outcomes :
@@ -221,23 +221,23 @@ Example c07_session_outcomes :
              OExc (PInt 10) (XStd KeyError)].
 Proof. vm_compute. reflexivity. Qed.
 
-Definition ex_final : hst unit := run ex_sem default_config handlers dispatch msg_ladder unbox_ladder box_ladder (init tt) ex_session.
+Definition ex_final : hst unit := run ex_sem default_config Hostile.handlers Hostile.dispatch Hostile.msg_ladder Hostile.unbox_ladder Hostile.box_ladder (init tt) ex_session.
 (* the hypotheses of the trace theorems are met by a trace that resolves, probes, accesses, touches and lends *)
 Example c07_trace_is_not_trivial :
   In (EResolve (ex_key 0) 0%N) (tr ex_final) /\ In (EAttr 0%N PGet (txt "exposed_get") [1%N]) (tr ex_final) /\
   In (EProbe 0%N (txt "exposed_secret")) (tr ex_final) /\ In (EBox (ex_key 1) 1%N) (tr ex_final) /\
   In (ETouch 1%N OpCall []) (tr ex_final) /\ In (EMiss (ex_key 2)) (tr ex_final) /\
   In (EVin (Vinegar.ENew (Vinegar.Generic (S' "os") (S' "system")))) (tr ex_final) /\
-  tbl ex_final = [(ex_key 0, 0%N, 0%Z); (ex_key 1, 1%N, 0%Z)] /\ List.length (tr ex_final) = 26%nat.
-Proof. vm_compute. repeat split; tauto. Qed.
+  tbl ex_final = [(ex_key 0, 0%N, 0%Z); (ex_key 1, 1%N, 0%Z)] /\ List.length (tr ex_final) = 28%nat.
+Proof. vm_compute. repeat split; try reflexivity; repeat (first [left; reflexivity | right]). Qed.
 (* the guard hypothesis holds for the model's own table, and fails for a table that pickles unguarded *)
 Example c07_guard_hypothesis_is_decidable_and_sharp :
-  table_pkb false handlers = true /\
+  table_pkb false Hostile.handlers = true /\
   table_pkb false [("pickle"%string, {| h_min := 2; h_defaults := []; h_body := XOp OpPickle P0 P1 |})] = false.
 Proof. split; vm_compute; reflexivity. Qed.
 (* refusals touch nothing: the denied GETATTR of the session adds no touching event *)
 Example c07_denied_request_is_quiet :
-  let s1 := fst (step ex_sem default_config handlers dispatch msg_ladder unbox_ladder box_ladder (init tt) (req 1 3 [])) in
-  let s2 := fst (step ex_sem default_config handlers dispatch msg_ladder unbox_ladder box_ladder s1 (req 2 4 [Lr (ex_key 0); V (S' "secret")])) in
+  let s1 := fst (step ex_sem default_config Hostile.handlers Hostile.dispatch Hostile.msg_ladder Hostile.unbox_ladder Hostile.box_ladder (init tt) (req 1 3 [])) in
+  let s2 := fst (step ex_sem default_config Hostile.handlers Hostile.dispatch Hostile.msg_ladder Hostile.unbox_ladder Hostile.box_ladder s1 (req 2 4 [Lr (ex_key 0); V (S' "secret")])) in
   nt (tr s2) = nt (tr s1) /\ tbl s2 = tbl s1.
 Proof. vm_compute. split; reflexivity. Qed.
